@@ -19,12 +19,15 @@ RULE = ("cases: arrays with variables whose ids are str / unicode / empty / int-
         "construct with partial dictionaries, unknown ids, callable defaults and dtypes int/int32/int64/float/float32; from_list with flat "
         "and one-level nested lists incl. unknown ids; to_list on 1-D and 2-D; A/b/to_linalg on polyhedra with index. non-trivial: the "
         "dictionary/list names some but not all columns (construct/from_list), both kinds of variables exist (indices); distinct by digest"
-        ' Also: twin arrays with equal ids whose bounds have the same sum but differ in (0,1)-ness.')
+        ' Also: twin arrays with equal ids whose bounds have the same sum but differ in (0,1)-ness; variables declared with dtype="int" '
+        '(bounds -32768..32767) and user subclasses of variable; sequences in which a declared array is first used for read-only questions that wrap it '
+        'again (separable, neglectable_columns, neglect_columns, ge_polyhedron(P), boolean_ndarray(a, variables=other)) and the declared association '
+        'is compared before/after, then the bridge functions are asked on the first object.')
 BUDGET = {"quick": (12, 1000, 90), "thorough": (16, 8000, 1200)}
 PYTEST = True     # thorough tier also runs the repository's own tests under these monitors
 MANDATORY = ["judged:construct", "judged:construct:callable-default", "judged:construct:float-nan-default", "judged:construct:int-lower-default",
              "judged:boolean-integer-partition", "judged:integer.from_list", "judged:boolean.from_list", "judged:to_list:1D", "judged:to_list:2D",
-             "judged:A", "judged:b", "judged:to_linalg"]
+             "judged:A", "judged:b", "judged:to_linalg", "judged:rewrap:polyhedron", "judged:rewrap:array", "judged:construct:default-min-int-lower"]
 
 
 # ------------------------------------------------------------------------------------------- construct
@@ -73,6 +76,8 @@ def construct_post(pre, args, kwargs, result):
         ctx.judged("construct:float-nan-default")
     elif is_int and len(named) < len(vs):
         ctx.judged("construct:int-lower-default")
+        if any(v[1] == -32768 and v[0] not in vv for v in vs):
+            ctx.judged("construct:default-min-int-lower")
     if 0 < len(named) < len(vs):
         ctx.nt(monitor.digest(["construct", vs, sorted(map(str, vv)), str(dt), callable(dv)]))
     ctx.sample({"fn": "construct", "variables": vs, "values": {str(k): v for k, v in vv.items()}, "dtype": str(dt), "result": [repr(x) for x in got.tolist()]}, cap=3)
@@ -228,6 +233,9 @@ def gen_vars(rng, n):
             out.append([i, 1, 1])
         elif r < 0.7:
             out.append([i, 0, 0])
+        elif r < 0.78:
+            # the library's own integer variables: dtype="int" means bounds (-32768, 32767); the extremes are ordinary declared bounds
+            out.append(rng.choice([[i, -32768, 32767, "int"], [i, -32768, rng.randint(-3, 5)], [i, -32767, 10], [i, rng.randint(-5, 0), 32767]]))
         else:
             lo = rng.randint(-5, 3)
             out.append([i, lo, lo + rng.randint(1, 6)])
@@ -235,13 +243,99 @@ def gen_vars(rng, n):
 
 
 def gen_case(rng, tier, ctx, i):
-    kind = rng.choice(["construct", "construct", "indices", "ifrom", "bfrom", "to_list", "ab"])
+    kind = rng.choice(["construct", "construct", "indices", "ifrom", "bfrom", "to_list", "ab", "rewrap"])
     n = rng.randint(1, 7)
     vs = gen_vars(rng, n)
     c = {"kind": kind, "vars": vs, "seed": rng.getrandbits(32)}
-    if kind == "ab":
+    if kind in ("ab", "rewrap"):
         c["poly"] = polygen.gen_poly(rng, allow_int16=False)
     return c
+
+
+class ItemVar(puan.variable):
+    """a user's own variable class (an item with extra attributes)"""
+    def __init__(self, id, bounds=None, dtype=None):
+        super().__init__(id, bounds, dtype)
+        self.label = "item " + str(id)
+
+
+def decl(x):
+    return [(v.id, v.bounds.as_tuple(), type(v).__name__) for v in x.variables], [getattr(i, "id", i) for i in getattr(x, "index", [])]
+
+
+def run_rewrap(case, ctx, rng, vs):
+    """a declared array is used for read-only questions that wrap it again inside the library (ge_polyhedron(self), boolean_ndarray(vec, variables=..));
+    afterwards the declared id/column association must still be the one that was declared, and the bridge functions are asked on the first object"""
+    if rng.random() < 0.6:
+        P = polygen.build_poly(dict(case["poly"], dtype=None) if rng.random() < 0.7 else case["poly"])
+        before = decl(P)
+        n = numpy.asarray(P).shape[1] - 1
+        done = []
+        for _ in range(rng.randint(1, 3)):
+            q = rng.choice(["separable2", "separable1", "neglectable", "neglect", "wrap", "wrap-other", "A", "ineqs", "reducable", "col_bounds", "copy-view"])
+            done.append(q)
+            try:
+                if q == "separable2":
+                    P.separable(numpy.array([[rng.randint(-2, 2) for _ in range(n)] for _ in range(rng.randint(1, 3))], dtype=numpy.int64))
+                elif q == "separable1":
+                    P.separable(numpy.array([rng.randint(-2, 2) for _ in range(n)], dtype=numpy.int64))
+                elif q == "neglectable":
+                    P.neglectable_columns(numpy.array([[rng.randint(0, 1) for _ in range(n)]], dtype=numpy.int64))
+                elif q == "neglect":
+                    P.neglect_columns(numpy.array([rng.randint(0, 1) for _ in range(n)], dtype=numpy.int64))
+                elif q == "wrap":
+                    pnd.ge_polyhedron(P)
+                elif q == "wrap-other":
+                    pnd.ge_polyhedron(P, variables=[puan.variable("o%d" % k, bounds=(-1, 2)) for k in range(n + 1)])
+                elif q == "A":
+                    P.A, P.b
+                elif q == "ineqs":
+                    P.ineqs_satisfied(numpy.array([[rng.randint(-2, 2) for _ in range(n)]], dtype=numpy.int64))
+                elif q == "reducable":
+                    P.reducable_rows_and_columns()
+                elif q == "col_bounds":
+                    P.column_bounds()
+                else:
+                    P.view(pnd.ge_polyhedron), P.copy(), P[:1]
+            except Exception as e:       # a question the input does not admit (not this property's matter): the association is still judged
+                ctx.count("count:rewrap-query-raised:" + type(e).__name__)
+        after = decl(P)
+        ctx.judged("rewrap:polyhedron")
+        ctx.check(before == after, "declared-association-kept", lambda: {"queries": done, "declared": before, "afterwards": after, "M": numpy.asarray(P).tolist()})
+        ctx.nt(monitor.digest(["rewrap", done, before[0]]))
+        ctx.call("A", lambda: P.A)
+        ctx.call("to_linalg", P.to_linalg)
+        vv = {v.id: 1 for v in P.variables[1:][:2]}
+        got = ctx.call("construct", P.A.construct, vv)
+        return
+    cls = rng.choice([pnd.boolean_ndarray, pnd.integer_ndarray, pnd.variable_ndarray])
+    a = cls(numpy.array([[rng.randint(0, 1) for _ in vs] for _ in range(rng.randint(1, 2))], dtype=numpy.int64), variables=vs)
+    before = decl(a)
+    other = [puan.variable("o%d" % k, bounds=(0, 3)) for k in range(len(vs))]
+    done = []
+    for _ in range(rng.randint(1, 2)):
+        q = rng.choice(["same-class-other-vars", "same-class-default", "other-class", "row", "view"])
+        done.append(q)
+        if q == "same-class-other-vars":
+            b = cls(a, variables=other)
+            ctx.check(decl(b)[0] == [(v.id, v.bounds.as_tuple(), "variable") for v in other], "declared-association-kept",
+                      lambda: {"queries": done, "second-wrapper": decl(b), "asked-for": [v.id for v in other]})
+        elif q == "same-class-default":
+            cls(a)
+        elif q == "other-class":
+            rng.choice([pnd.boolean_ndarray, pnd.integer_ndarray, pnd.variable_ndarray])(a, variables=other)
+        elif q == "row":
+            cls(a[0], variables=other)
+        else:
+            a.view(cls), a.copy()
+    after = decl(a)
+    ctx.judged("rewrap:array")
+    ctx.check(before == after, "declared-association-kept", lambda: {"queries": done, "declared": before, "afterwards": after})
+    ctx.nt(monitor.digest(["rewrap-arr", cls.__name__, done, before[0]]))
+    ctx.call("construct", a.construct, {vs[0].id: 1})
+    ctx.call("boolean_variable_indices", lambda: a.boolean_variable_indices)
+    if cls is pnd.boolean_ndarray:
+        ctx.call("to_list", a.to_list)
 
 
 DTYPES = {"int": int, "int32": numpy.int32, "int64": numpy.int64, "float": float, "float32": numpy.float32}
@@ -249,9 +343,11 @@ DTYPES = {"int": int, "int32": numpy.int32, "int64": numpy.int64, "float": float
 
 def run_case(case, ctx):
     rng = random.Random(case["seed"])
-    vs = [puan.variable(i, bounds=(lo, hi)) for i, lo, hi in case["vars"]]
+    vs = [puan.variable(v[0], dtype="int") if len(v) > 3 else (ItemVar if rng.random() < 0.1 else puan.variable)(v[0], bounds=(v[1], v[2])) for v in case["vars"]]
     ids = [v.id for v in vs]
     kind = case["kind"]
+    if kind == "rewrap":
+        return run_rewrap(case, ctx, rng, vs)
     if kind in ("construct", "indices"):
         arr_cls = rng.choice([pnd.variable_ndarray, pnd.integer_ndarray, pnd.boolean_ndarray])
         arr = arr_cls(numpy.zeros((rng.randint(1, 2), len(vs)), dtype=numpy.int64), variables=vs)
